@@ -74,6 +74,9 @@ impl Mon {
             } else {
                 if *r != Out::None {
                     f.push(("C17 M-tile: output while idle without a start sequence", format!("got {}", r.short())));
+                    if let Out::Err(DecodeErr::DiscardedBytes(_)) = r {
+                        f.push(("C08 M-start: a start sequence is reported inside noise that does not contain one", format!("got {} after {} bytes of noise", r.short(), self.unacc)));
+                    }
                     if let Out::Msg(_) = r {
                         f.push(("C02 M-sound: payload reported outside any frame", format!("got {}", r.short())));
                     }
